@@ -432,6 +432,23 @@ def embeds():
     return P
 
 
+def nested_specials():
+    """Shapes the C02 quantifier names explicitly."""
+    P = {}
+    # same-named groups under different parents
+    P['same1'] = Program('same1', [group('A', [group('X', [leaf('P', 'int32', tag='p')], tag='x')], tag='a'),
+                                   group('B', [group('X', [leaf('Q', 'int64', 'opt', tag='q')], 'opt', tag='x')], 'opt', tag='b')])
+    P['same2'] = Program('same2', [group('X', [leaf('P', 'int32', tag='p')], 'opt', tag='x'),
+                                   group('B', [group('X', [leaf('Q', 'string', tag='q')], 'rep', tag='x')], tag='b')])
+    # nesting to several levels
+    P['deep_req'] = Program('deep_req', [group('A', [group('B', [leaf('C', 'int32', tag='c')], tag='b')], tag='a')])
+    P['deep_opt'] = Program('deep_opt', [group('A', [group('B', [group('C', [leaf('D', 'int32', 'opt', tag='d')], 'opt', tag='c'), leaf('E', 'string', tag='e')], 'opt', tag='b')], 'opt', tag='a'), leaf('Z', 'int64', tag='z')])
+    P['deep_rep'] = Program('deep_rep', [group('A', [group('B', [leaf('C', 'int32', 'rep', tag='c')], 'rep', tag='b'), leaf('N', 'int64', tag='n')], 'rep', tag='a')])
+    P['two_groups'] = Program('two_groups', [group('G', [leaf('A', 'int32', tag='a'), leaf('B', 'string', 'opt', tag='b')], tag='g'), leaf('M', 'bool', tag='m'),
+                                             group('H', [leaf('C', 'int64', 'rep', tag='c')], 'opt', tag='h')])
+    return P
+
+
 # -------------------------------------------------------------------- bounded grammar (C05)
 
 def grammar_shapes(max_nodes, max_depth=3, max_members=2):
